@@ -62,7 +62,7 @@ func TestApprovalVsTimeout(t *testing.T) {
 					defer spine.VerifYield.Store(nil)
 					p.Cap.Drain()
 					e.send(w)
-					if !waitFor(func() bool { e.mu.Lock(); defer e.mu.Unlock(); return len(e.calls) >= nCb }, 40*timeout) {
+					if !waitFor(func() bool { e.mu.Lock(); defer e.mu.Unlock(); return len(e.calls) >= nCb }, 400*timeout) {
 						world.Fail(t, "C12/callback-not-invoked", "callbacks not invoked")
 					}
 					// the other callbacks approve right away
@@ -83,7 +83,7 @@ func TestApprovalVsTimeout(t *testing.T) {
 						inWindow = true
 						reached++
 						// wait until the time-out has produced its error result, then let the delivery continue
-						if !waitFor(func() bool { _, er := e.outcomes(w); return er >= 1 }, 40*timeout) {
+						if !waitFor(func() bool { _, er := e.outcomes(w); return er >= 1 }, 400*timeout) {
 							world.Fail(t, "C12/timeout-missing", "no error result although the approval time-out elapsed")
 						}
 						close(resume)
@@ -91,6 +91,7 @@ func TestApprovalVsTimeout(t *testing.T) {
 						// yield point not reached (hook removed): the delivery completed before the time-out
 					}
 					<-done
+					waitFor(func() bool { s, er := e.outcomes(w); return s+er > 0 }, 400*timeout) // a late timer is not judged
 					time.Sleep(timeout + 10*time.Millisecond)
 					e.w.Sync()
 					s, er := e.outcomes(w)
